@@ -94,7 +94,7 @@ def run(ctx):
         elif d and d[0]["w"] == "csize" and d[0]["v"] == "big":
             v = 6 if thorough else 2        # (each of these makes the reader allocate gigabytes)
         elif d and d[0]["w"] in ("csize", "namelen", "count", "payload", "appendlong"):
-            v = 20 if thorough else 4
+            v = 16 if thorough else 3
         chosen.append((o, v))
     for o in pairs[:npairs]:
         chosen.append((o, 2 if thorough else 1))
@@ -149,7 +149,7 @@ def run(ctx):
         ctx.count_case([c["s"], c["ds"], c["raw"], o["variant"]], nontrivial=ob.get("changed", True))
         replay = dict(kind="case", case=dict(c, variants=o["variant"] + 1), expected=exp, seed=ctx.seed, observed=ob)
         if cls in ("died", "hung"):
-            # a reader that is killed for lack of memory, or makes no progress for two minutes, on a file where it may
+            # a reader that is killed for lack of memory, or makes no progress for 75 seconds, on a file where it may
             # allocate a forged size is the known finding; an unexplained hang is a time-out, hence inconclusive
             if exp["huge"]:
                 ctx.deviation(FID, "%s: the reading process %s (spec allows %s)" % (desc, cls, sorted(allowed)), replay)
@@ -157,7 +157,7 @@ def run(ctx):
                 nviol += 1
                 ctx.deviation(None, "%s: the reading process died (spec allows %s)" % (desc, sorted(allowed)), replay)
             else:
-                raise vlib.Inconclusive("%s: the reading process made no progress for two minutes" % desc)
+                raise vlib.Inconclusive("%s: the reading process made no progress for 75 seconds" % desc)
             continue
         if cls not in allowed:
             nviol += 1
